@@ -4,6 +4,9 @@ import QrlewModel.Model.Hierarchy
 import QrlewModel.Model.Rules
 import QrlewModel.Generated.Rules
 import QrlewModel.Model.DpEvent
+import QrlewModel.Model.Monotone
+import QrlewModel.Model.Injection
+import QrlewModel.Model.Filter
 /-!
 JSON-lines driver over the executable model.  One input line = one harness line
 (`{"stream":..,"case":..,..}`); one output line = `{"model": <canonical output>}`.
@@ -232,6 +235,49 @@ def runDpQuery (aux : Json) : Option Json := do
   let tauOk := if tauUsed then (match eds with | [(e, d)] => closeTo e (eps * share) && closeTo d (delta * share) | _ => false) else eds.isEmpty
   pure (Json.mkObj [("sigma_ok", Json.bool sigmaOk), ("event_ok", Json.bool eventOk), ("tau_ok", Json.bool tauOk)])
 
+def runFnImg (c : Json) : Option Json := do
+  let f ← (c.getObjVal? "f").toOption >>= fun s => s.getStr?.toOption
+  let s1 ← (c.getObjVal? "s1").toOption >>= jPairs?
+  let s2 ← (c.getObjVal? "s2").toOption >>= jPairs?
+  let a := fromIntervals cap s1
+  let b := fromIntervals cap s2
+  match f with
+  | "plus" => pure (ivsToJson (plusImage cap a b))
+  | "minus" => pure (ivsToJson (minusImage cap a b))
+  | "multiply" => pure (ivsToJson (mulImage cap a b))
+  | "sum" => pure (ivsToJson (sumImage cap a b))
+  | _ => none
+
+def runOfInt (c : Json) : Option Json := do
+  let n ← (c.getObjVal? "n").toOption >>= jInt?
+  pure (Json.str (toString (ofInt n)))
+
+def opndOfJson? (j : Json) : Option Operand := do
+  let tag ← (j.getArrVal? 0).toOption >>= fun t => t.getStr?.toOption
+  match tag with
+  | "col" => do let i ← (j.getArrVal? 1).toOption >>= jInt?; pure (.col i.toNat)
+  | "lit" => do let k ← (j.getArrVal? 1).toOption >>= jInt?; pure (.lit k)
+  | _ => none
+
+partial def predOfJson? (j : Json) : Option Pred := do
+  let tag ← (j.getArrVal? 0).toOption >>= fun t => t.getStr?.toOption
+  match tag with
+  | "gt" | "ge" => do pure (.gt (← (j.getArrVal? 1).toOption >>= opndOfJson?) (← (j.getArrVal? 2).toOption >>= opndOfJson?))
+  | "lt" | "le" => do pure (.lt (← (j.getArrVal? 1).toOption >>= opndOfJson?) (← (j.getArrVal? 2).toOption >>= opndOfJson?))
+  | "eq" => do pure (.eq (← (j.getArrVal? 1).toOption >>= opndOfJson?) (← (j.getArrVal? 2).toOption >>= opndOfJson?))
+  | "and" => do pure (.and (← (j.getArrVal? 1).toOption >>= predOfJson?) (← (j.getArrVal? 2).toOption >>= predOfJson?))
+  | "or" => do pure (.or (← (j.getArrVal? 1).toOption >>= predOfJson?) (← (j.getArrVal? 2).toOption >>= predOfJson?))
+  | "other" => pure (.other true)
+  | _ => none
+
+def runFilter (c : Json) : Option Json := do
+  let colsJ ← (c.getObjVal? "cols").toOption >>= fun a => a.getArr?.toOption
+  let cols ← colsJ.toList.mapM jPairs?
+  let T := cols.map (fromIntervals cap)
+  let p ← (c.getObjVal? "pred").toOption >>= predOfJson?
+  let out := filterT cap T p
+  pure (Json.mkObj [("cols", Json.arr (out.map ivsToJson).toArray)])
+
 def handle (line : String) : Json :=
   match Json.parse line with
   | .error e => Json.mkObj [("model", Json.null), ("error", Json.str s!"parse: {e}")]
@@ -241,6 +287,9 @@ def handle (line : String) : Json :=
     let r : Option Json := match stream with
       | "intervals" => runIntervals c
       | "hier" => runHier c
+      | "fnimg" => runFnImg c
+      | "ofint" => runOfInt c
+      | "filter" => runFilter c
       | "dpevent" => runDpEvent c
       | "dpquery" => runDpQuery ((j.getObjVal? "aux").toOption.getD Json.null)
       | "rules" => runRules ((j.getObjVal? "aux").toOption.getD Json.null)
